@@ -168,5 +168,35 @@ def rule_narrow_convert(ctx: Ctx, prog: Program) -> None:
                                   f"{f.qualname} builds a {dt} array from another array (`{ast.unparse(node)[:80]}`): array-to-array conversion wraps silently")
                 else:
                     ctx.ok("R-NARROW-CONVERT", f"{f.qualname}: {ast.unparse(node)[:70]} (checking constructor: a Python int that does not fit raises)", nontrivial=True)
+    # block stores: an array computed in a wide type (np.cumsum, np.array, arange, a sum of arrays ...) written into a slice of an 8/16-bit
+    # table is cast element by element WITHOUT any range check (only a Python int stored into one cell raises)
+    for f in prog.all_functions():
+        if f.njit or not (f.module.startswith(f"{prog.package}.problems") or f.module.startswith(f"{prog.package}.solvers")):
+            continue
+        narrow_attrs = {}
+        for node in ast.walk(f.node):
+            if isinstance(node, ast.Assign) and len(node.targets) == 1 and isinstance(node.targets[0], ast.Attribute) and isinstance(node.value, ast.Call):
+                for kw in node.value.keywords:
+                    if kw.arg == "dtype" and ast.unparse(kw.value).split(".")[-1] in NARROW:
+                        narrow_attrs[ast.unparse(node.targets[0])] = ast.unparse(kw.value)
+        for node in ast.walk(f.node):
+            if not (isinstance(node, ast.Assign) and len(node.targets) == 1 and isinstance(node.targets[0], ast.Subscript)):
+                continue
+            tgt = node.targets[0]
+            base = ast.unparse(tgt.value)
+            if base not in narrow_attrs:
+                continue
+            idx_elts = list(tgt.slice.elts) if isinstance(tgt.slice, ast.Tuple) else [tgt.slice]
+            if not any(isinstance(x, ast.Slice) for x in idx_elts):
+                continue
+            v = node.value
+            while isinstance(v, ast.Subscript) and isinstance(v.value, ast.Call):
+                v = v.value  # a slice of a freshly computed array
+            wide = isinstance(v, ast.Call) and ast.unparse(v.func).split(".")[-1] in ("cumsum", "array", "asarray", "arange", "concatenate", "add", "sum", "diff")
+            same_table = isinstance(v, ast.Subscript) and ast.unparse(v.value) in narrow_attrs  # a slice of a table of the same width
+            if wide and not same_table:
+                ctx.violation("R-NARROW-CONVERT", f.path, f.qualname, f"block-store:{base.split('.')[-1]}", f"{f.path}:{node.lineno}",
+                              f"{f.qualname} writes `{ast.unparse(v)[:60]}` into a slice of {base} ({narrow_attrs[base]}): the values are cast without a range check, "
+                              "a total beyond the type's range wraps silently (offsets of later constraints alias those of the first ones)")
     ctx.floor("R-NARROW-CONVERT:narrow-constructions", n_checked, 2)
     ctx.assume("NumPy >= 2 semantics: np.array(list_of_python_ints, dtype=narrow) raises OverflowError for an out-of-range element")
